@@ -798,7 +798,8 @@ class DistGeometric(DistDiscrete):
         if not 0 <= p <= 1:
             raise ValueError(f"parameter p {p} not between 0 and 1")
         self._p = p
-        self._lnp = math.log(1.0 - self._p)
+        # p == 1: the first trial always succeeds, log(1 - p) is -infinity
+        self._lnp = math.log(1.0 - self._p) if self._p < 1.0 else -math.inf
         
     def draw(self) -> int:
         """
@@ -873,7 +874,8 @@ class DistNegBinomial(DistDiscrete):
         self._p = p
         self._s = s
         # helper variable equal to ln(1-p) to avoid repetitive calculation.
-        self._lnp = math.log(1.0 - self._p)
+        # p == 1: the first trial always succeeds, log(1 - p) is -infinity
+        self._lnp = math.log(1.0 - self._p) if self._p < 1.0 else -math.inf
         
     def draw(self) -> int:
         """
